@@ -474,6 +474,8 @@ def _relay(ctx, verdicts, payloads):
                 drift.setdefault(d, []).append(cid)
     for d, cids in sorted(drift.items()):
         ctx.note(f"model_drift {d}: {len(set(cids))} case(s), first case {min(cids)}")
+    rej = ctx.extra.setdefault("rejected_cases", [])
+    rej += sorted({cid for cid, vjs in verdicts.items() for vj in vjs if vj.get("rejected")})[:50]
     by_clause = ctx.extra.setdefault("failing_cases_by_clause", {})
     for cid, vjs in verdicts.items():
         for c in {c for vj in vjs for c in list(vj.get("fails", [])) + list(vj.get("kf", []))}:
@@ -506,7 +508,7 @@ def run(ctx):
         payloads[case] = inst
         ctx.add_case(inst, nontrivial=_nontrivial(inst))
     results += core.parallel_map(_random_job, rjobs, chunksize=1)
-    verdicts = ctx.validate("Trace_Myosin", results, timeout=3000, heap="3g")
+    verdicts = ctx.validate("Trace_Myosin", results, timeout=3000, heap="2g")
     _relay(ctx, verdicts, payloads)
     ctx.rule = ("TLC enumerates interface-list configurations (distinct, repeated object, equal-valued objects, equal "
                 "coordinates with other ids, ids unrelated to position) x placements (integer / half-integer rescale and "
@@ -534,5 +536,5 @@ def replay(ctx, payload):
     ctx.add_case(inst)
     ctx.add_case({"replay": True})
     c, evs = _random_job((1, inst)) if inst["kind"] != "mc" else _mc_job((1, inst))
-    v = ctx.validate("Trace_Myosin", [(c, evs)], heap="3g")
+    v = ctx.validate("Trace_Myosin", [(c, evs)], heap="2g")
     _relay(ctx, v, {c: inst})
